@@ -1066,7 +1066,7 @@ func (ctx *RenderContext) EvaluateExpression(node Node) (interface{}, error) {
 			return 0, nil
 		case "-":
 			if num, ok := ctx.toNumber(operand); ok {
-				return -num, nil
+				return noNegZero(-num), nil
 			}
 			return 0, nil
 		default:
@@ -1430,7 +1430,7 @@ func (ctx *RenderContext) evaluateBinaryOp(operator string, left, right interfac
 	case "*":
 		if lNum, lok := ctx.toNumber(left); lok {
 			if rNum, rok := ctx.toNumber(right); rok {
-				return lNum * rNum, nil
+				return noNegZero(lNum * rNum), nil
 			}
 		}
 
@@ -1440,7 +1440,7 @@ func (ctx *RenderContext) evaluateBinaryOp(operator string, left, right interfac
 				if rNum == 0 {
 					return nil, errors.New("division by zero")
 				}
-				return lNum / rNum, nil
+				return noNegZero(lNum / rNum), nil
 			}
 		}
 
@@ -1451,7 +1451,7 @@ func (ctx *RenderContext) evaluateBinaryOp(operator string, left, right interfac
 				if rNum == 0 {
 					return nil, errors.New("modulo by zero")
 				}
-				return math.Mod(lNum, rNum), nil
+				return noNegZero(math.Mod(lNum, rNum)), nil
 			}
 		}
 
@@ -1592,6 +1592,16 @@ func (ctx *RenderContext) evaluateBinaryOp(operator string, left, right interfac
 	}
 
 	return nil, fmt.Errorf("unsupported binary operator: %s", operator)
+}
+
+// noNegZero turns the IEEE negative zero that float arithmetic produces for
+// results such as 0 * -3, 0 / -3, -4 % 2 or -(0) into plain zero, which is the
+// mathematical result and prints as "0" rather than "-0"
+func noNegZero(f float64) float64 {
+	if f == 0 {
+		return 0
+	}
+	return f
 }
 
 // contains checks if a value is contained in a container (string, slice, array, map)
